@@ -36,7 +36,7 @@ def load_event(s):
     hash(e.channels)  # the dispatcher uses them as part of a dict key
 
     for k, v in dict(data['meta']).items():
-        if k.startswith('__') or k in META_EXCLUDE:
+        if not isinstance(k, str) or k.startswith('__') or k in META_EXCLUDE:
             continue
         setattr(e, k, v)
 
@@ -82,5 +82,9 @@ def dump_value(v):
 
 def load_value(v):
     data = json.loads(v)
-    meta = {k: v for k, v in data['meta'].items() if not k.startswith('__') and k not in META_EXCLUDE}
+    meta = {
+        k: v
+        for k, v in dict(data['meta']).items()
+        if isinstance(k, str) and not k.startswith('__') and k not in META_EXCLUDE
+    }
     return data['value'], data['id'], data['errors'], meta
